@@ -126,10 +126,73 @@ static void seal_case(int which /*0 xsalsa, 1 xchacha*/, size_t mlen, int pat, i
     free(m); free(c); free(c_ref); free(dm);
 }
 
+/* ---- bit-length carry family: one length is >= 2^29 bytes, so its BIT count (what the AEAD length blocks of AEGIS and GCM encode, and the
+ * byte count the ChaCha20-Poly1305 ones encode next to it) no longer fits 32 bits. For every construction with AD (the ones whose tag absorbs
+ * 64-bit lengths; the Poly1305 boxes have no length block): shape 0 = (adlen 2^29+3, mlen 5) in both tiers, shape 1 = (mlen 2^29+3, adlen 3)
+ * in the thorough tier. Contents: a 65521-byte R1 block repeated, in one read-only mapping shared by the workers (message at offset 7).
+ * Oracle: the independent reference construction. Its (tag, ciphertext digest) depends on (seed, construction, shape) only, so it is computed
+ * by whichever process needs it first and kept in $VERIF_C01_BIGREF.<seed>.<shape>.<construction> (set by the driver; without it: recomputed). */
+#define BIGLEN ((size_t) 536870912 + 3)
+#define BIGPER ((size_t) 65521)
+static unsigned char *big_src; static int nbig;
+static void *big_map(size_t n) { void *p = mmap(NULL, n, PROT_READ | PROT_WRITE, MAP_PRIVATE | MAP_ANONYMOUS | MAP_NORESERVE, -1, 0); if (p == MAP_FAILED) { perror("mmap"); exit(2); } return p; }
+static uint64_t big_digest(const unsigned char *p, size_t n)      /* FNV-1a over 64-bit words: any single differing word changes it */
+{ uint64_t h = 0xcbf29ce484222325ULL, w; size_t i; for (i = 0; i + 8 <= n; i += 8) { memcpy(&w, p + i, 8); h = (h ^ w) * 0x100000001b3ULL; } for (; i < n; i++) h = (h ^ p[i]) * 0x100000001b3ULL; return h; }
+static void big_ref(const cons *C, int ci, int shape, size_t mlen, size_t adlen, const unsigned char *nonce, const unsigned char *k, unsigned char tag[32], uint64_t *dig)
+{
+    const char *base = getenv("VERIF_C01_BIGREF"); char path[700], tmp[760]; unsigned char rec[48], *c_ref; FILE *f;
+    path[0] = 0;
+    if (base && *base) { snprintf(path, sizeof path, "%s.%llu.%d.%d", base, (unsigned long long) vf_seed, shape, ci);
+        if ((f = fopen(path, "rb")) != NULL) { size_t n = fread(rec, 1, 48, f); fclose(f); if (n == 48 && !memcmp(rec, "C01BIG\1", 8)) { memcpy(tag, rec + 8, 32); memcpy(dig, rec + 40, 8); return; } } }
+    c_ref = big_map(mlen + 64); memset(tag, 0, 32);
+    C->ref(c_ref, tag, big_src + 7, mlen, big_src, adlen, nonce, k);
+    *dig = big_digest(c_ref, mlen); munmap(c_ref, mlen + 64);
+    if (path[0]) { snprintf(tmp, sizeof tmp, "%s.tmp%ld", path, (long) getpid()); memcpy(rec, "C01BIG\1", 8); memcpy(rec + 8, tag, 32); memcpy(rec + 40, dig, 8);
+        if ((f = fopen(tmp, "wb")) != NULL) { size_t n = fwrite(rec, 1, 48, f); if (fclose(f) == 0 && n == 48) rename(tmp, path); else remove(tmp); } }
+}
+#define BIGBAD(form, what) do { char _k[200]; snprintf(_k, sizeof _k, "%s/bit-length-carry/%s/mlen=%zu/adlen=%zu", C->name, form, mlen, adlen); vf_fail(_k, "%s", what); } while (0)
+static void big_case(int b)
+{
+    int ci = b % NCONS, shape = b / NCONS, r; const cons *C = &CONS[ci]; size_t mlen = shape ? BIGLEN : 5, adlen = shape ? 3 : BIGLEN, T = C->tlen;
+    unsigned char kbuf[32], nonce[32], tag_ref[32], tag[32], out[64], dm[16]; uint64_t dig_ref; keyctx kc; ull ol;
+    const unsigned char *m = big_src + 7, *ad = big_src;
+    /* the software-AES AEGIS backend runs at ~20 MB/s (27 s per pass): exercised in the thorough tier only, shape 0, one (detached) pass, in the
+     * unmasked configuration of the builds that select it (noasm, generic); the hardware-AES backend and all other constructions: always */
+    int soft = !strncmp(C->name, "aead_aegis", 10) && !(sodium_runtime_has_aesni() & sodium_runtime_has_avx()) && !sodium_runtime_has_armcrypto();
+    const char *mask = getenv("SODIUM_VERIF_CPU_DISABLE");
+    if (!C->has_ad || !C->avail()) return;
+    if (soft && (!thorough || shape != 0 || (mask && *mask))) return;
+    cons_keys(C, &kc, kbuf, PAT_R1, 0); vf_pat(nonce, C->nlen, PAT_R1, 212 + shape);
+    big_ref(C, ci, shape, mlen, adlen, nonce, kc.k, tag_ref, &dig_ref);
+    if (shape == 0) {
+        if (!soft) {
+        memset(out, 0xA5, sizeof out); ol = 12345;
+        r = C->enc(out + 8, &ol, m, mlen, ad, adlen, nonce, &kc); n_eval++; n_nontriv++;
+        if (r != 0 || ol != mlen + T) BIGBAD("combined", "encrypt failed / reported length wrong");
+        else if (big_digest(out + 8, mlen) != dig_ref) BIGBAD("combined", "ciphertext differs from the reference construction");
+        else if (memcmp(out + 8 + mlen, tag_ref, T)) BIGBAD("combined", "tag differs from the reference construction");
+        else { memset(dm, 0xA5, sizeof dm); ol = 777; r = C->dec(dm, &ol, out + 8, mlen + T, ad, adlen, nonce, &kc);
+            if (r != 0 || ol != mlen || memcmp(dm, m, mlen) || dm[mlen] != 0xA5) BIGBAD("combined", "decrypt of own output failed / wrong message / wrong length"); }
+        }
+        memset(out, 0xA5, sizeof out); memset(tag, 0, 32);
+        r = C->encd(out, tag, m, mlen, ad, adlen, nonce, &kc); n_eval++; n_nontriv++;
+        if (r != 0 || big_digest(out, mlen) != dig_ref || memcmp(tag, tag_ref, T) || out[mlen] != 0xA5) BIGBAD("detached", "detached encrypt differs from the reference (or bad maclen / overrun)");
+    } else {
+        unsigned char *c = big_map(mlen + 64); memset(tag, 0, 32);
+        r = C->encd(c, tag, m, mlen, ad, adlen, nonce, &kc); n_eval++; n_nontriv++;
+        if (r != 0 || big_digest(c, mlen) != dig_ref) BIGBAD("detached", "ciphertext differs from the reference construction");
+        else if (memcmp(tag, tag_ref, T)) BIGBAD("detached", "tag differs from the reference construction");
+        else { r = C->decd(c, c, mlen, tag_ref, ad, adlen, nonce, &kc);       /* in place */
+            if (r != 0 || memcmp(c, m, mlen)) BIGBAD("detached", "detached decrypt (in place) of the reference ciphertext failed"); }
+        munmap(c, mlen + 64);
+    }
+}
+
 static size_t MAXM;
 static void do_mlen(long L)
 {
     size_t mlen = (size_t) L; int ci, pat, a; size_t adlen;
+    if (L < 0) { big_case((int) (-L - 1)); return; }
     if (mlen > MAXM + 15) {          /* windows around the lengths at which the low byte of a 16-byte-block counter wraps (block 254 + 256 j: bytes 4064 + 4096 j), which
                                         also cover 64-byte-block multiples of 4096: every length in [-48, +80] around them */
         size_t wi = mlen - MAXM - 16, j = wi / 129, d = wi % 129;
@@ -177,7 +240,10 @@ int main(void)
     printf("INFO features avx2=%d ssse3=%d sse2=%d aesni=%d pclmul=%d avx=%d gcm=%d\n", sodium_runtime_has_avx2(), sodium_runtime_has_ssse3(), sodium_runtime_has_sse2(),
            sodium_runtime_has_aesni(), sodium_runtime_has_pclmul(), sodium_runtime_has_avx(), crypto_aead_aes256gcm_is_available());
     for (ci = 0; ci < NCONS; ci++) printf("INFO construction %s available=%d forms=%d\n", CONS[ci].name, CONS[ci].avail(), 2 + CONS[ci].nx);
-    vf_parallel(16, 0, (long) MAXM + 1 + 15 + 129 * (thorough ? 16 : 8), do_mlen, fin);
+    nbig = NCONS * (thorough ? 2 : 1);
+    big_src = big_map(BIGLEN + 64 + 2 * BIGPER); vf_pat(big_src, BIGPER, PAT_R1, 210);
+    { size_t have = BIGPER, want = BIGLEN + 64; while (have < want) { size_t n = have < want - have ? have : want - have; memcpy(big_src + have, big_src, n); have += n; } }
+    vf_parallel(16, -(long) nbig, (long) MAXM + 1 + 15 + 129 * (thorough ? 16 : 8), do_mlen, fin);
     vf_sample("aead_aes256gcm mlen=225 adlen=224 pattern R2: combined, detached, NULL-length-pointer and both afternm forms vs SP 800-38D reference");
     vf_sample("secretbox_xsalsa20poly1305 mlen=0: easy = 16-byte tag only; NaCl zero-padded form agrees");
     vf_sample("box_seal mlen=17 row=1: scripted RNG serves esk = ff*32; c = epk || tag || ct with nonce BLAKE2b-192(epk||pk)");
